@@ -44,14 +44,8 @@ func InstallHooks() {
 		jsonata.VerifStep = func(n jparse.Node) error { return engine.HookStep(n) }
 		jsonata.VerifLockWait = engine.HookLockWait
 		installAuto()
-		// lock calibration: does the code really hold globalRegistryMutex at
-		// the yield points inside its two critical sections?
-		jsonata.VerifResetGlobals()
-		engine.LockCalib.On = true
-		_ = jsonata.RegisterVars(map[string]interface{}{"calib": 1.0})
-		_, _ = jsonata.Compile("1")
-		engine.LockCalib.On = false
-		jsonata.VerifResetGlobals()
+		// (no warm-up of the library here: the first run of a process is a
+		// cold start, see Spec.ColdStart)
 	})
 }
 
@@ -183,6 +177,46 @@ func buildDoc(d DocSpec) *docInst {
 			}
 		}
 	}
+	if d.Typed {
+		// Go-typed containers instead of the generic ones encoding/json
+		// produces: callers may hand Eval any Go value
+		for _, v := range []interface{}{di.val, di.pristine} {
+			m, ok := v.(map[string]interface{})
+			if !ok {
+				continue
+			}
+			if items, ok := m["items"].([]interface{}); ok {
+				typed := make([]map[string]interface{}, 0, len(items))
+				for _, it := range items {
+					if im, ok := it.(map[string]interface{}); ok {
+						typed = append(typed, im)
+					}
+				}
+				m["items"] = typed
+			}
+			if nums, ok := m["nums"].([]interface{}); ok {
+				typed := make([]float64, 0, len(nums)+2)
+				for _, n := range nums {
+					if f, ok := n.(float64); ok {
+						typed = append(typed, f)
+					}
+				}
+				m["nums"] = typed
+			}
+			if ss, ok := m["s"].([]interface{}); ok {
+				typed := make([]string, 0, len(ss)+2)
+				for _, x := range ss {
+					if str, ok := x.(string); ok {
+						typed = append(typed, str)
+					}
+				}
+				m["s"] = typed
+			}
+			if one, ok := m["one"].(map[string]interface{}); ok {
+				m["tmap"] = map[string]map[string]interface{}{"a": one, "b": {"k": "tb"}}
+			}
+		}
+	}
 	if d.Member != "" {
 		// the document is one member of the decoded value (a sub-structure
 		// registered as a variable on its own)
@@ -199,7 +233,7 @@ func tripleKey(text string, doc *docInst, vars map[string]*docInst, exts bool) s
 	if doc != nil {
 		b.WriteString(doc.spec.JSON)
 		b.WriteString(strings.Join(doc.spec.Alias, ">"))
-		b.WriteString("#" + doc.spec.Member + "#" + strings.Join(doc.spec.Subslice, ","))
+		b.WriteString("#" + doc.spec.Member + "#" + strings.Join(doc.spec.Subslice, ",") + fmt.Sprint(doc.spec.Typed))
 	}
 	b.WriteByte(0)
 	names := make([]string, 0, len(vars))
@@ -209,7 +243,7 @@ func tripleKey(text string, doc *docInst, vars map[string]*docInst, exts bool) s
 	sort.Strings(names)
 	for _, n := range names {
 		vs := vars[n].spec
-		b.WriteString(n + "=" + vs.JSON + strings.Join(vs.Alias, ">") + "#" + vs.Member + "#" + strings.Join(vs.Subslice, ",") + ";")
+		b.WriteString(n + "=" + vs.JSON + strings.Join(vs.Alias, ">") + "#" + vs.Member + "#" + strings.Join(vs.Subslice, ",") + fmt.Sprint(vs.Typed) + ";")
 	}
 	if exts {
 		b.WriteString("\x00x")
@@ -482,6 +516,7 @@ func Execute(spec *Spec, opt Options) *Result {
 	// ---- reference phase (controller alone) ----
 	engine.Ref.NodeTypes, engine.Ref.Funcs = res.NodeTypes, res.Funcs
 	defer func() { engine.Ref.NodeTypes, engine.Ref.Funcs = nil, nil }()
+	refPhase := func() {
 	if !usesRegistry && spec.Kind != "clock" { // clock values have no time-independent reference
 		type tmeta struct {
 			text string
@@ -528,6 +563,10 @@ func Execute(spec *Spec, opt Options) *Result {
 				}
 			}
 		}
+	}
+	}
+	if !spec.ColdStart {
+		refPhase()
 	}
 
 	// ---- set-up of the shared state (controller) ----
@@ -602,6 +641,12 @@ func Execute(spec *Spec, opt Options) *Result {
 	if opt.Now != nil {
 		res.SimNanos = opt.Now() - start
 	}
+	if spec.ColdStart && !s.Deadlock && !s.StepBudget {
+		// cold start: the tasks were the first to execute these code paths
+		// in this process (lazy initialisations met concurrently); the
+		// references are computed now
+		refPhase()
+	}
 
 	// ---- after the join (or abandonment) ----
 	res.Events = s.EventCount
@@ -627,13 +672,9 @@ func Execute(spec *Spec, opt Options) *Result {
 			res.WindowSw += v
 		}
 	}
-	if usesRegistry {
-		if engine.LockCalib.ReadSeen && engine.LockCalib.ReadHeld {
-			res.Probes["calib_read_lock_held"]++
-		}
-		if engine.LockCalib.WriteSeen && engine.LockCalib.WriteHeld {
-			res.Probes["calib_write_lock_held"]++
-		}
+	res.ColdStart = spec.ColdStart
+	if spec.ColdStart {
+		res.Probes["cold_start_runs"]++
 	}
 	res.Deadlock, res.StepBudget = s.Deadlock, s.StepBudget
 	if s.Deadlock || s.StepBudget {
